@@ -5,6 +5,7 @@ import XPathV.Spec.Eval
 import XPathV.Spec.Grammar
 import XPathV.Spec.FullGrammar
 import XPathV.Spec.FullBridge
+import XPathV.Spec.Template
 /-!
 # Line-protocol driver (`xdriver`)
 
@@ -293,6 +294,20 @@ def histOp (rc : RunCfg) (c0 : Case) (doc2 : Option Doc) (op0 : String) : String
   else if op.startsWith "E" then modelEval rc c c.expr (parseRef (op.drop 1).toString)
   else "badop"
 
+/-- `tmpl` kind: extra = `hex(template);groups;t0|t1|…;n0|n1|…` (`ti` = `-` if group i did not participate, else
+`x` ++ hex of its text; `ni` = `x` ++ hex of its name): the text `replace()` substitutes for a match with these
+groups — model (package rewriting + Go `expand`) and specification ("`$n` read as group n") -/
+def tmplRun (extra : String) : String × String :=
+  match extra.splitOn ";" with
+  | [r, k, ts, ns] =>
+    let r := unhexChars r
+    let k := k.toNat!
+    let dec (x : String) : Option (List Char) := if x == "-" then none else some (unhexChars (x.drop 1).toString)
+    let g : Model.Template.Groups := ⟨(ts.splitOn "|").map dec, (ns.splitOn "|").map (fun x => (dec x).getD [])⟩
+    ("tmpl:" ++ hexOfString (String.ofList (Model.Template.replaceOne g k r)),
+     "tmpl:" ++ hexOfString (String.ofList (Spec.Template.replaceOneSpec g k r)))
+  | _ => ("badtmpl", "-")
+
 def runCase (rc : RunCfg) (c : Case) : String × String :=
   match c.kind with
   | "sel" => (modelSel rc c c.expr c.ctx, sortedSet c.doc (specEval c c.expr c.ctx))
@@ -348,6 +363,7 @@ def runCase (rc : RunCfg) (c : Case) : String × String :=
   | "key" => ("keys:" ++ ",".intercalate ((allRefs c.doc).map (fun r => hex16 (identityHash c.doc (ecfg rc c) r))), "-")
   | "cache" => (cacheRun c.extra, "-")
   | "rxcache" => (rxCacheRun c.extra, "-")
+  | "tmpl" => tmplRun c.extra
   | _ => ("-", "-")
 
 partial def loop (rc : RunCfg) (hin : IO.FS.Stream) (hout : IO.FS.Stream) : IO Unit := do
